@@ -77,6 +77,14 @@ def classify_history(rec, verdict, hm):
             got = hm.get("got", {})
             if got and (not exp or all(v == 0 for v in exp.values())):
                 return ("F22", "reset-priority latch is on while set and reset are both active (signal form: set + feedback > reset; inlined form: set OR (on AND NOT reset))")
+        # F32: set and reset derive from one input and fall in the same step; the set path is one combinator
+        # (the remapper) longer than the reset path, so for a tick the latch sees set without reset and turns on
+        if c["kind"] == "rs_latch" and hm.get("step", 0) > 0 and c["enable_or_set"] == 0 and c["reset"] == 0 \
+                and c.get("prev_enable_or_set", 0) != 0 and c.get("prev_reset", 0) != 0 and c["prev"] == 0:
+            exp = hm.get("expected", {})
+            got = hm.get("got", {})
+            if got and (not exp or all(v == 0 for v in exp.values())):
+                return ("F32", "reset-priority latch turns on when set and reset, both active, become inactive in the same step (set path one tick longer than reset path)")
     return None
 
 
